@@ -5,7 +5,7 @@ import (
 	"pgregory.net/rapid"
 )
 
-var UPaths = []string{"a", "b", "c", "d", "a.b", "a.c", "b.a", "a.0", "a.1", "a.5", "a.b.c", "a.0.b", "b.1.a", "c.b"}
+var UPaths = []string{"a", "b", "c", "d", "a.b", "a.c", "b.a", "a.0", "a.1", "a.5", "a.b.c", "a.0.b", "b.1.a", "c.b", "ab", "a.bc"}
 
 var UpdateOps = []string{"$set", "$unset", "$inc", "$mul", "$min", "$max", "$pop", "$pull", "$pullAll", "$addToSet", "$push", "$bit", "$rename", "$setOnInsert"}
 
